@@ -25,7 +25,8 @@ PROPS = ('position', 'rotation', 'scale')
 
 class _D(Domain):
     def resolve_call(self, st, call, walker):
-        return None
+        # private helpers extracted from the analysed code are followed
+        return walker.resolve_helper(st, call)
 
     def resolve_setter(self, st, target, walker):
         return None
